@@ -1,10 +1,9 @@
 #!/bin/bash
-# usage: tools/sweep.sh <tier> <seed> [<seed> ...]   -> one line per (check, seed)
+# usage: [CHECKS="C03 C07"] tools/sweep.sh <tier> <seed> [<seed> ...]   -> one line per (check, seed)
 cd "$(dirname "$0")/.."
 tier=$1; shift
 for seed in "$@"; do
-  for i in $(seq -w 1 20); do
-    pid=C$i
+  for pid in ${CHECKS:-$(seq -f C%02g 1 20)}; do
     start=$(date +%s)
     out=$(VERIF_SEED=$seed ./check $pid --tier $tier 2>&1)
     code=$?
